@@ -23,6 +23,8 @@ type FnResult struct {
 	CoverCond  *Term
 	GenSecs    float64
 	Err        string
+	// CounterFallback: a contract loop variable was bound to the loop's only counter (renamed variable)
+	CounterFallback bool
 	ctx        *FnCtx
 	fn         *ssa.Function
 	args       []Value
@@ -348,6 +350,41 @@ func (e *Engine) VerifyFunction(key string) (res *FnResult) {
 		res.Intrinsics = append(res.Intrinsics, k)
 	}
 	sort.Strings(res.Intrinsics)
+	res.CounterFallback = c.counterFallback
 	res.ctx, res.fn, res.args = c, fn, args
 	return
+}
+
+
+// Rebind retries a function whose loop contract was bound through the counter fallback and did not verify:
+// the renamed counter may be the contract's variable shifted by one. The first reading under which every
+// selected obligation is discharged replaces the result; otherwise the original result stands.
+func (e *Engine) Rebind(r *FnResult, opt SolveOptions) *FnResult {
+	if r == nil || !r.CounterFallback || r.Err != "" {
+		return r
+	}
+	failed := func(x *FnResult) bool {
+		for _, o := range x.Obls {
+			if (opt.Select == nil || opt.Select(o)) && o.Result != "discharged" {
+				return true
+			}
+		}
+		return false
+	}
+	if !failed(r) {
+		return r
+	}
+	defer func() { e.LoopShift = 0 }()
+	for _, sh := range []int{-1, 1} {
+		e.LoopShift = sh
+		r2 := e.VerifyFunction(r.Key)
+		if r2.Err != "" {
+			continue
+		}
+		r2.Discharge(opt)
+		if !failed(r2) {
+			return r2
+		}
+	}
+	return r
 }
